@@ -65,7 +65,7 @@ def rand_leaf(rng, i, env):
         env['cellsets'].append({'key': F.cps('Q%d' % (100 + i)), 'vals': [enc(v)]})
         return F.cell(label)
     if k == 4:
-        return F.call('SUM', F.num(str(v)), F.num('1'))
+        return F.call('SUM', F.num(str(v)), F.num(rng.choice(['1', '100', '234', '1000', '0.5'])))
     return F.call(rng.choice(['ABS', 'SUM']), F.neg(F.num(str(v))))
 
 
